@@ -6,4 +6,10 @@ CONSTANTS
   Shapes = {"flat", "nested"}
   RSet <- GenRSetWide
   DSet <- GenDSet
+  HW <- GenHW
+  InitOpts = {}
+  BurstOpts = {}
+  LoopOpts = {}
+  LBurstOpts = {}
+  PairOpts = {}
 INVARIANTS TypeOK
